@@ -208,8 +208,10 @@ inductive D where
   | on4 (f : F)
   /-- `return f(ip.As16())` -/
   | on16 (f : F)
-  /-- `if c { t }; e`  /  `if c { t } else { e }` -/
+  /-- `if c { t }; e`  /  `if c { t } else { e }`  /  one arm of a tagless `switch` -/
   | ite (c : Cond) (t e : D)
+  /-- `ip = ip.Unmap(); d`: the rest of the body runs on the unmapped address -/
+  | unmap (d : D)
   deriving DecidableEq, Repr
 
 /-- the four kinds of `netip.Addr` (a 4in6 address `::ffff:a.b.c.d` is an IPv6 address for
@@ -224,9 +226,13 @@ def Cond.holds : Cond → Kind → Bool
   | .is6, k => k == .v4in6 || k == .v6
   | .is4In6, k => k == .v4in6
 
-/-- the leaf reached for an address of kind `k` -/
+/-- the leaf reached for an address of kind `k`.  `Addr.Unmap` turns a 4in6 address into the
+embedded IPv4 address and is the identity on every other kind, so below an `unmap` a 4in6
+address continues as kind `v4` and the leaf it reaches is evaluated on the UNMAPPED address
+(the `unmap` marker is kept around that leaf); for the other kinds the marker disappears. -/
 def D.reach (k : Kind) : D → D
   | .ite c t e => if c.holds k then D.reach k t else D.reach k e
+  | .unmap d => if k = .v4in6 then .unmap (D.reach .v4 d) else D.reach k d
   | d => d
 
 end GolibsVerif.C06
